@@ -15,6 +15,7 @@ PROP = {
         "a third of the pushed flow revisions (a quarter of the initial flows) carry a processor that needs the request body (DataSanitation): after a successful update the in-process proxy, which keeps the include-body map as the admin calls leave it, must ship the body for the transactions of every such flow of the new configuration - a new flow that runs on the old proxy registration is a half-built configuration",
         "the gateway's log level (LOG_LEVEL: off in three cases of eight, else error / info / debug / trace; what is logged is thrown away, what a log statement does to build its arguments happens) is a generated part of every case of TestConfigurationUpdates: no answer may depend on it; a failing case reports its level",
         "the gateway's server timeout (LUNAR_SERVER_TIMEOUT_SEC) is 1 s in this harness; about one update in thirty is pushed while the proxy is slow (its first five admin calls take 300 ms of real time each), so that the update outlasts the timeout; the state is read after the proxy has been quiet for 500 ms",
+        "half of the initial configurations keep 1-3 files of zero length in the configuration directories (.gitkeep / .keep placeholders in flows/, quotas/, path_params/, flows/archive/, which the *.yaml loaders ignore): 'byte-for-byte what they were before' holds for them as for every other file",
         "HAProxy is a stub that answers 200 (or 500 for the injected call); health-check failures are not injected (each costs 40 real-time retries)",
         "after a 2xx answer no part of the payload may be one that cannot be loaded (undecodable, not YAML, rejected by validation, metrics of the wrong shape): such an update was neither rejected nor applied as a whole",
         "one failure per update: a payload that is rejected anyway is not combined with an injected fault, so a fault never hits the recovery step of another failure",
